@@ -15,11 +15,11 @@ func profStat(en *Env) {
 		traces = 200 * en.Scale
 		ops = 70
 	}
-	limits := []int64{150, 300, 700, 2000, 40000, 200000}
+	limits := []int64{150, 300, 700, 2000, 40000, 200000, 1 << 20}
 	for t := 0; t < traces; t++ {
 		cfg := h.CoverCfg(en.R, t, limits)
 		same := cfg
-		randomWorkload(en, cfg, 3+en.R.Intn(5), genOpts{batches: true, merges: true, restarts: true, backups: t%2 == 1, ops: ops, prof: "stat"},
+		randomWorkload(en, cfg, 3+en.R.Intn(5), genOpts{batches: true, merges: true, restarts: true, backups: t%2 == 1, brim: true, ops: ops, prof: "stat"},
 			func() h.Cfg { return same })
 	}
 	en.Summary["traces"] = traces
